@@ -8,6 +8,7 @@
 //                                 thread 0 after the registration;  storage 0 heap, 1 counting storage (adapters 0 and 1 only)
 //   op [2 kind datum]             0 value datum, 1 exception test_exc{datum}, 2 promise dropped
 //   op [3 ckind cdatum]           converter (future_conv): 0 returns src+cdatum, 1 throws test_exc{cdatum}
+//   op [4 b]                      b=1: the user callback of callback_await throws after it has done its work
 //   op [9 k k k ...]              schedule
 // The harness contains no expected values: it prints the (tid, point) trace, the events and the counters.
 #define VH_DEFINE_NEW
@@ -52,6 +53,7 @@ struct Ctx {
     long live_f = 0;
     const void *invoked = nullptr;
     long runs = 0;
+    bool cbthrow = false;
     long end_news = 0, end_dels = 0;   // counters when the last scenario thread returned (+ counted teardown)
     void thread_end() { end_news = std::max(end_news, news()); end_dels = std::max(end_dels, dels()); }
     long step() const {
@@ -158,6 +160,7 @@ struct AwFn : FnBase {
         c->invoked = this;
         c->cb_enter(kind, datum);
         c->cb_exit();
+        if (c->cbthrow) throw test_exc{-1};   // a callback that fails after doing its work
     }
 };
 
@@ -210,12 +213,12 @@ struct OuterHold {
 };
 
 struct Cfg {
-    long ad = -1, mode = -1, stor = -1, k = -1, d = 0, ck = 0, cd = 0;
+    long ad = -1, mode = -1, stor = -1, k = -1, d = 0, ck = 0, cd = 0, cbthrow = 0;
     std::vector<long> sched;
     bool valid() const {
         if (ad < 0 || ad > 4 || mode < 0 || mode > 3 || stor < 0 || stor > 1) return false;
         if (stor == 1 && ad > 1) return false;
-        if (k < 0 || k > 2 || ck < 0 || ck > 1) return false;
+        if (k < 0 || k > 2 || ck < 0 || ck > 1 || cbthrow < 0 || cbthrow > 1) return false;
         if (ad == 1 && mode < 2) return false;
         return true;
     }
@@ -223,7 +226,7 @@ struct Cfg {
 
 static Cfg parse(const vh::Case &cs) {
     Cfg g;
-    bool h1 = false, h2 = false, h3 = false;
+    bool h1 = false, h2 = false, h3 = false, h4 = false;
     for (auto &op : cs.ops) {
         if (op.empty()) continue;
         if (op[0] == 1 && !h1) {
@@ -235,6 +238,9 @@ static Cfg parse(const vh::Case &cs) {
         } else if (op[0] == 3 && !h3) {
             h3 = true;
             if (op.size() == 3) { g.ck = op[1]; g.cd = op[2]; } else g.ck = -1;
+        } else if (op[0] == 4 && !h4) {
+            h4 = true;
+            if (op.size() == 2) g.cbthrow = op[1]; else g.cbthrow = -1;
         } else if (op[0] == 9) {
             g.sched.insert(g.sched.end(), op.begin() + 1, op.end());
         }
@@ -260,6 +266,7 @@ static void run_case(const vh::Case &cs, bool seq) {
     long live0 = counted::live.load();
     Ctx ctx;
     g_ctx = &ctx;
+    ctx.cbthrow = g.cbthrow == 1 && g.ad == 0;
     ctx.news0 = vh::g_news.load();
     ctx.dels0 = vh::g_deletes.load();
     cstorage::in_use = false;
